@@ -4,6 +4,7 @@ CONSTANTS
   R1s = {1, 2}
   R2s = {1, 2}
   Offs = {1}
+  ExtraFK = {"DiagMeasure", "DiagPDF:S"}
 INIT Init
 NEXT Next
 CHECK_DEADLOCK FALSE
